@@ -11,6 +11,7 @@
 #include <algorithm>
 #include <functional>
 #include <memory>
+#include <set>
 #include <string>
 #include <string_view>
 #include <vector>
@@ -1145,8 +1146,14 @@ inline void phaseB(Ctx& C, const std::vector<int>& strings, int maxUsers, const 
           else nCopied++;
         }
         if (!expressible) continue;
+        std::set<std::string> seenKinds;  // rotations that produce the same kinds tuple are the same case
         for (int rot : rotations) {
           if (si == S_MAX && rot >= 7) continue;  // 7 rotations put every kind at every position; enough for the 64 KiB string
+          {
+            std::string tuple;
+            for (int i = 0; i < k; i++) tuple += std::to_string(int(roles[size_t(i)] == RAW ? NKINDS : roleKind(roles[size_t(i)], i, rot, S[si].hasNul))) + ",";
+            if (!seenKinds.insert(tuple).second) continue;
+          }
           for (int m = 0; m < NMUTS; m++) {
             for (int j = 0; j < k; j++) {
               if ((m == M_NONE || m == M_COPY || m == M_REBUILD) && j > 0) continue;
